@@ -906,15 +906,18 @@ def rule_wr_freshrow(cx, rep, port):
     for c in chain:
         for mname, fd in roles.methods(c).items():
             for call in _subwrite_calls(fd):
-                if not (call.args and isinstance(call.args[0], ast.Name)):
+                if not call.args:
                     continue
-                v = call.args[0].id
                 loop = getattr(call, 'parent', None)
                 while loop is not None and loop is not fd and not isinstance(loop, (ast.For, ast.While)):
                     loop = getattr(loop, 'parent', None)
                 if loop is None or loop is fd:
                     continue
                 n += 1
+                if not isinstance(call.args[0], ast.Name):
+                    rep.holds(_key(c, mname) + ' row object', call, 'the record is an expression evaluated in every iteration')
+                    continue
+                v = call.args[0].id
                 inside = {id(x) for x in ast.walk(loop)}
                 binds_in = [x for x in ast.walk(loop) if isinstance(x, ast.Name) and x.id == v and isinstance(x.ctx, ast.Store)]
                 binds_out = [x for x in walk_no_nested(fd) if isinstance(x, ast.Name) and x.id == v and isinstance(x.ctx, ast.Store) and id(x) not in inside]
@@ -927,4 +930,4 @@ def rule_wr_freshrow(cx, rep, port):
                     rep.violated(key, muts[0], '`{}` is created once before the loop and refilled for every record (`{}`): every record handed to the next writer is the same list object, so a writer that keeps the records it receives holds N references to the last one'.format(v, node_text(muts[0], 60)))
                 else:
                     rep.undecided(key, call, 'where `{}` is bound was not recognised'.format(v))
-    rep.require_count('records emitted from a loop', n, 2, (p.files[mod], 0))
+    rep.require_count('records emitted from a loop', n, 1, (p.files[mod], 0))
